@@ -1,231 +1,21 @@
-import Clem.Proofs.LruBytes
+import Clem.Props.C15.LruBytes
+import Clem.Props.C15.TtlLru
+import Clem.Props.C15.DetLru
+import Clem.Props.C15.Merge
+import Clem.Props.C15.Sched
+import Clem.Props.C15.Wrappers
 
 /-!
 # C15 — Bounded caches never exceed capacity and evict deterministically
 
-Property theorems only (helper lemmas live in `Clem/Proofs/*`).  Every theorem is
-about the executable definitions in `Clem/Model/*` that the driver runs against
-the implementation.
+Hub module: the property theorems live in the sub-modules (all covered by the audit of
+`Clem.Props.C15.*`):
+
+* `C15/LruBytes.lean` — `LRUBytes` (entry + byte caps, exact byte accounting, LRU-prefix eviction);
+* `C15/TtlLru.lean`   — `_NamespaceCache` / `LRUCache` (TTL by injected clock) and `CacheManager`;
+* `C15/DetLru.lean`   — `DeterministicLRUSet`, `DeterministicLRU`, `DedupeRing`;
+* `C15/Merge.lean`    — `merge_caches_deterministic` (worker-order / key-order independence, first-wins);
+* `C15/Sched.lean`    — interleaving semantics: linearizability for atomic steps;
+* `C15/Wrappers.lean` — lock coverage of `ThreadSafeCache` / `ThreadSafeBytesCache` (generated table) and
+  the cache invariants under every schedule.
 -/
-
-namespace Clem.LruBytes
-
-/-- The empty cache satisfies the invariant. -/
-theorem C15_lrubytes_inv_init (maxE maxB : Nat) : Inv (init maxE maxB) := by
-  simp [Inv, init]
-
-/-- `get` preserves the invariant (capacity, exact byte accounting, unique keys). -/
-theorem C15_lrubytes_inv_get (s : State) (k : Nat) (h : Inv s) : Inv (get s k).1 := by
-  unfold get
-  split
-  · exact h
-  · rename_i e he
-    obtain ⟨h1, h2, h3, h4, h5⟩ := h
-    have hmem := List.mem_of_find?_eq_some he
-    have hkey : e.key = k := by simpa using List.find?_some he
-    have hs := sumCost_without_some h1 he
-    have hl := length_without_some he
-    refine ⟨?_, ?_, ?_, ?_, ?_⟩
-    · simp only [List.map_append, List.map_cons, List.map_nil]
-      rw [List.nodup_append]
-      refine ⟨without_keys_nodup k h1, by simp, ?_⟩
-      intro a ha b hb
-      simp at hb; subst hb
-      intro hab; subst hab
-      rw [hkey] at ha
-      exact not_mem_without k _ ha
-    · simp only [sumCost_append, sumCost_cons, sumCost_nil]; omega
-    · intro hp; have := h3 hp; simp; omega
-    · exact h4
-    · intro hd; have := h5 hd; simp [this] at hmem
-
-/-- A key that is accepted by `put` is never among the entries evicted by that `put`:
-the list handed to the loop ends with it and the loop stops before consuming it. -/
-theorem evictLoop_keeps_last (maxE maxB : Nat) (p : List Entry) (x : Entry)
-    (hx : 0 < maxB → x.cost ≤ maxB) :
-    (evictLoop maxE maxB (p ++ [x]) (sumCost (p ++ [x]) : Int)).1 ≠ [] := by
-  induction p with
-  | nil =>
-    simp only [List.nil_append, evictLoop]
-    split
-    · rename_i hc
-      rcases hc with ⟨h1, h2⟩ | ⟨h1, h2⟩
-      · simp at h2; omega
-      · have := hx h1; simp at h2; omega
-    · simp
-  | cons a p ih =>
-    simp only [List.cons_append, evictLoop]
-    split
-    · have : ((sumCost (a :: (p ++ [x])) : Nat) : Int) - (a.cost : Int)
-          = ((sumCost (p ++ [x]) : Nat) : Int) := by
-        simp only [sumCost_cons]; omega
-      rw [this]; exact ih
-    · simp
-
-/-- `put` preserves the invariant. -/
-theorem C15_lrubytes_inv_put (s : State) (k v : Nat) (c : Int) (h : Inv s) :
-    Inv (put s k v c).1 := by
-  unfold put
-  by_cases hen : s.maxE = 0 ∧ s.maxB = 0
-  · rw [if_pos hen]; exact h
-  · rw [if_neg hen]
-    by_cases hrej : 0 < s.maxB ∧ s.maxB < c.toNat
-    · simp only [if_pos hrej]; exact h
-    · simp only [if_neg hrej]
-      obtain ⟨h1, h2, h3, h4, h5⟩ := h
-      -- the list handed to the loop and its byte total
-      have hnd : ((without k s.items ++ [(⟨k, v, c.toNat⟩ : Entry)]).map Entry.key).Nodup := by
-        simp only [List.map_append, List.map_cons, List.map_nil]
-        rw [List.nodup_append]
-        refine ⟨without_keys_nodup k h1, by simp, ?_⟩
-        intro a ha b hb
-        simp at hb; subst hb
-        intro hab; subst hab
-        exact not_mem_without _ _ ha
-      have htot := bytesWithout_add k v c.toNat h1 h2
-      rw [htot]
-      have hspec := evictLoop_spec s.maxE s.maxB (without k s.items ++ [⟨k, v, c.toNat⟩])
-        ((sumCost (without k s.items ++ [⟨k, v, c.toNat⟩]) : Nat) : Int)
-      have hlast := evictLoop_keeps_last s.maxE s.maxB (without k s.items) ⟨k, v, c.toNat⟩
-        (by intro hp; simp only [not_and, Nat.not_lt] at hrej; exact hrej hp)
-      simp only at hspec
-      generalize evictLoop s.maxE s.maxB (without k s.items ++ [⟨k, v, c.toNat⟩])
-        ((sumCost (without k s.items ++ [⟨k, v, c.toNat⟩]) : Nat) : Int) = r at hspec hlast
-      obtain ⟨e1, e2, e3⟩ := hspec
-      have e3' := e3 hlast
-      refine ⟨?_, ?_, ?_, ?_, ?_⟩
-      · rw [e1, List.map_append, List.nodup_append] at hnd
-        exact hnd.2.1
-      · simp only; rw [e2, e1]; simp only [sumCost_append]; omega
-      · exact e3'.1
-      · exact e3'.2
-      · intro hd; exact absurd hd hen
-
-theorem C15_lrubytes_inv_clear (s : State) : Inv (clear s) := by
-  simp [Inv, clear]
-
-theorem C15_lrubytes_inv_step (s : State) (op : Op) (h : Inv s) : Inv (step s op) := by
-  cases op with
-  | get k => exact C15_lrubytes_inv_get s k h
-  | put k v c => exact C15_lrubytes_inv_put s k v c h
-  | clear => exact C15_lrubytes_inv_clear s
-
-/-- **Every reachable state** (any caps, any operation sequence, any length) is within
-its entry cap and its byte cap, accounts bytes exactly and holds each key once. -/
-theorem C15_lrubytes_inv_reachable (maxE maxB : Nat) (ops : List Op) :
-    Inv (run (init maxE maxB) ops) := by
-  suffices ∀ s, Inv s → Inv (run s ops) from this _ (C15_lrubytes_inv_init _ _)
-  induction ops with
-  | nil => intro s h; exact h
-  | cons op ops ih => intro s h; exact ih _ (C15_lrubytes_inv_step s op h)
-
-/-- The Boolean monitor the harness evaluates on the implementation's observable
-state is the invariant. -/
-theorem C15_lrubytes_monitor_iff (s : State) : invB s = true ↔ Inv s := by
-  unfold invB Inv
-  simp only [Bool.and_eq_true, decide_eq_true_eq, Bool.or_eq_true, beq_iff_eq,
-    Bool.not_eq_true', Bool.and_eq_false_iff, List.isEmpty_iff]
-  constructor
-  · rintro ⟨⟨⟨⟨a, b⟩, c⟩, d⟩, e⟩
-    refine ⟨a, b, fun h => ?_, fun h => ?_, fun h => ?_⟩
-    · rcases c with c | c <;> omega
-    · rcases d with d | d <;> omega
-    · rcases e with e | e
-      · rcases e with e | e
-        · simp [h.1] at e
-        · simp [h.2] at e
-      · exact e
-  · rintro ⟨a, b, c, d, e⟩
-    refine ⟨⟨⟨⟨a, b⟩, ?_⟩, ?_⟩, ?_⟩
-    · by_cases h : s.maxE = 0
-      · exact Or.inl h
-      · exact Or.inr (c (by omega))
-    · by_cases h : s.maxB = 0
-      · exact Or.inl h
-      · exact Or.inr (d (by omega))
-    · by_cases h : s.maxE = 0 ∧ s.maxB = 0
-      · exact Or.inr (e h)
-      · left
-        by_cases h1 : s.maxE = 0
-        · right; simp; intro h2; exact h ⟨h1, h2⟩
-        · left; simpa using h1
-
-/-- Eviction is strictly LRU-first: the evicted entries are a *prefix* of the
-recency order (with the written key moved to the MRU end), the survivors are the
-rest in unchanged order, and the reported totals are those of exactly that prefix. -/
-theorem C15_lrubytes_evicts_lru_prefix (s : State) (k v : Nat) (c : Int)
-    (hen : ¬(s.maxE = 0 ∧ s.maxB = 0)) (hfit : ¬(0 < s.maxB ∧ s.maxB < c.toNat)) :
-    without k s.items ++ [⟨k, v, c.toNat⟩] = (put s k v c).2 ++ (put s k v c).1.items := by
-  unfold put
-  simp only [if_neg hen, if_neg hfit]
-  exact (evictLoop_spec _ _ _ _).1
-
-/-- The key just written is never evicted by its own `put` (Inv gives the byte total). -/
-theorem C15_lrubytes_put_keeps_key (s : State) (k v : Nat) (c : Int) (h : Inv s)
-    (hen : ¬(s.maxE = 0 ∧ s.maxB = 0)) (hfit : ¬(0 < s.maxB ∧ s.maxB < c.toNat)) :
-    lookup k (put s k v c).1.items = some ⟨k, v, c.toNat⟩ := by
-  have hpre := C15_lrubytes_evicts_lru_prefix s k v c hen hfit
-  have hinv := C15_lrubytes_inv_put s k v c h
-  -- the survivors are a non-empty suffix of `without k items ++ [new]`
-  have hne : (put s k v c).1.items ≠ [] := by
-    unfold put
-    simp only [if_neg hen, if_neg hfit]
-    obtain ⟨h1, h2, -⟩ := h
-    have htot := bytesWithout_add k v c.toNat h1 h2
-    rw [htot]
-    exact evictLoop_keeps_last _ _ _ _
-      (by intro hp; simp only [not_and, Nat.not_lt] at hfit; exact hfit hp)
-  -- so the last element of the survivors is the new entry, and keys are unique
-  have hlast : ⟨k, v, c.toNat⟩ ∈ (put s k v c).1.items := by
-    have hl := congrArg List.getLast? hpre
-    simp only [List.getLast?_append, List.getLast?_singleton, Option.some_or] at hl
-    cases hg : (put s k v c).1.items.getLast? with
-    | none => exact absurd (List.getLast?_eq_none_iff.mp hg) hne
-    | some x =>
-      rw [hg] at hl; simp at hl; subst hl
-      exact List.mem_of_getLast? hg
-  obtain ⟨hnd, -⟩ := hinv
-  unfold lookup
-  generalize (put s k v c).1.items = l at hnd hlast
-  induction l with
-  | nil => simp at hlast
-  | cons a t ih =>
-    simp only [List.map_cons, List.nodup_cons] at hnd
-    rcases List.mem_cons.mp hlast with rfl | hm
-    · simp
-    · have hak : a.key ≠ k := by
-        intro hak; apply hnd.1; rw [hak]
-        exact List.mem_map.mpr ⟨_, hm, rfl⟩
-      simp [hak]
-      exact ih hnd.2 hm
-
-/-- Oversized items are rejected and leave the cache exactly as it was. -/
-theorem C15_lrubytes_rejects_oversized (s : State) (k v : Nat) (c : Int)
-    (h : 0 < s.maxB ∧ s.maxB < c.toNat) : put s k v c = (s, []) := by
-  unfold put; split
-  · rfl
-  · simp only [if_pos h]
-
-/-- Both caps zero ⇒ the cache is disabled: no operation sequence changes it and
-every `get` misses. -/
-theorem C15_lrubytes_disabled (ops : List Op) (k : Nat) :
-    run (init 0 0) ops = init 0 0 ∧ (get (run (init 0 0) ops) k).2 = none := by
-  have h : run (init 0 0) ops = init 0 0 := by
-    suffices ∀ s, s = init 0 0 → run s ops = init 0 0 from this _ rfl
-    induction ops with
-    | nil => intro s h; exact h
-    | cons op ops ih =>
-      intro s h; subst h
-      apply ih
-      cases op <;> simp [step, get, put, clear, init, lookup]
-  rw [h]; exact ⟨rfl, by simp [get, init, lookup]⟩
-
-/-- Non-vacuity: a concrete sequence reaches a full cache, evicts the LRU entry on
-the next `put`, and the invariant's premises are met by a non-trivial state. -/
-example :
-    let s := run (init 2 10) [.put 1 5 4, .put 2 6 4, .get 1]
-    s.items.map Entry.key = [2, 1] ∧ (put s 3 7 4).2 = [⟨2, 6, 4⟩] ∧
-    (put s 3 7 4).1.items.map Entry.key = [1, 3] ∧ invB (put s 3 7 4).1 = true := by
-  decide
-
-end Clem.LruBytes
